@@ -59,7 +59,7 @@ def make(spec):
 
 def ev(spec, sim, real):
     with np.errstate(all="ignore"):
-        return float(make(spec).compute_loss(sim.copy(), real.copy()))
+        return float(make(spec).compute_loss(lg.kcopy(sim), lg.kcopy(real)))
 
 
 def same(a, b, tol):
@@ -93,7 +93,10 @@ def cases(draw, kind):
         for _ in range(k - 1)]
     return {"loss": spec, "datas": datas, "perm": draw(st.permutations(list(range(d)))),
             "eperm": draw(st.permutations(list(range(e)))),
-            "bad_len": draw(st.sampled_from([-1, 1, 2])), "bad_what": draw(st.sampled_from(["weights", "filters"]))}
+            "bad_len": draw(st.sampled_from([-1, 1, 2])), "bad_what": draw(st.sampled_from(["weights", "filters"])),
+            # counts stored in an unsigned integer type (the relations are about the interface, whatever the numbers mean)
+            # (built-in losses only: what a user-defined stub does with wrapping integers is its own business)
+            "unsigned": None if kind.startswith("stub") else draw(st.sampled_from([None] * 7 + ["uint16", "uint8", "uint32"]))}
 
 
 def check_rel(ctx: Ctx, case):
@@ -101,6 +104,11 @@ def check_rel(ctx: Ctx, case):
     kind = spec["kind"]
     sub = f"rel_{kind}"
     datas = [lg.build_data(ds) for ds in case["datas"]]
+    if case.get("unsigned"):
+        top = {"uint8": 250, "uint16": 60000, "uint32": 4e9}[case["unsigned"]]
+        with np.errstate(all="ignore"):
+            datas = [tuple(np.rint(np.clip(np.abs(np.asarray(a, dtype=float)) * 4, 0, top)).astype(case["unsigned"]) for a in sr)
+                     for sr in datas]
     sim, real = datas[0]
     E, N, D = sim.shape
     perm, eperm = case["perm"], case["eperm"]
@@ -108,7 +116,7 @@ def check_rel(ctx: Ctx, case):
     nonuniform = w is not None and len(set(w)) > 1
     nontrivial = (D >= 2 and nonuniform) or (E >= 2 and eperm != sorted(eperm)) or len(datas) >= 2
     classes = [f"D={D}", f"E={E}", f"evals={len(datas)}"] + (["zero-weight"] if w and 0.0 in w else []) + (
-        ["neg-weight"] if w and min(w) < 0 else [])
+        ["neg-weight"] if w and min(w) < 0 else []) + ([case["unsigned"]] if case.get("unsigned") else [])
     ctx.count(sub, case, nontrivial, classes)
     wl = [1.0 / D] * D if w is None else [float(x) for x in w]
     is_lik = kind == "likelihood"
@@ -120,7 +128,7 @@ def check_rel(ctx: Ctx, case):
         seq = list(range(len(datas))) + [0]
         for k in seq:
             s, r = datas[k]
-            s0, r0 = s.copy(), r.copy()
+            s0, r0 = lg.kcopy(s), lg.kcopy(r)
             with np.errstate(all="ignore"):
                 v = float(obj.compute_loss(s, r))
             if s.tobytes() != s0.tobytes() or r.tobytes() != r0.tobytes():
@@ -182,16 +190,17 @@ def check_rel(ctx: Ctx, case):
                 ctx.fail("C08/ensemble-order", f"{kind}: reordering ensemble members {eperm} changes the loss {full!r} -> {v!r}",
                          sub, case)
                 return
-        # 8: zero when every member equals the real data (no filters)
+        # 8: zero when every member equals the real data (no filters, or filters that hand the series back unchanged)
         if kind in ("minkowski", "fourier") or (kind == "msm" and spec.get("cov") == "identity"
                                                  and not spec.get("standardise")):
-            s0 = dict(spec, filters=None)
-            eq = np.repeat(real[None, :, :], E, axis=0)
-            v = ev(s0, eq, real)
-            if not (abs(v) <= 1e-9 * max(1.0, float(np.max(np.abs(real)))) * sum(abs(a) for a in wl) * math.sqrt(N) + 0.0):
-                ctx.fail("C08/nonzero-at-equality", f"{kind}: loss is {v!r} when every simulated member equals the real data",
-                         sub, case)
-                return
+            for flt in (None, ["keep"] * D):
+                s0 = dict(spec, filters=flt)
+                eq = np.repeat(real[None, :, :], E, axis=0)
+                v = ev(s0, eq, real)
+                if not (abs(v) <= 1e-9 * max(1.0, float(np.max(np.abs(real)))) * sum(abs(a) for a in wl) * math.sqrt(N) + 0.0):
+                    ctx.fail("C08/nonzero-at-equality", f"{kind}: loss is {v!r} when every simulated member equals the real data "
+                             f"(filters: {'identity' if flt else 'none'})", sub, case)
+                    return
 
     # 9: wrong-length weights / filters are rejected with ValueError
     what = case["bad_what"]
@@ -221,5 +230,5 @@ SUBCHECKS = {f"rel_{k}": check_rel for k in KINDS}
 
 def run(ctx: Ctx):
     for k in KINDS:
-        q = 250 if k == "msm" else 500
-        drive(ctx, f"rel_{k}", cases(k), check_rel, ctx.n(q, q * 30))
+        q = 800 if k == "msm" else 500
+        drive(ctx, f"rel_{k}", cases(k), check_rel, ctx.n(q, q * (10 if k == "msm" else 30)))
